@@ -10,3 +10,18 @@ def register(claim):
           SOLVER + "Model/Recover.v accept is tied to ensureSolutionIsGoodEnough by correspondence stage E (evaluated in Coq on the (K, f, u, eps) the implementation saw, verdict compared with whether it went on), the exact-residual oracle runs on every accepted answer, and the binary's exit status / files are checked on the shipped examples, a mechanism and an unreachable error. Partial: convergence of the float PCG, and 'exactly zero' on supports (observed each run, delivered by the external solver).",
           "machine-checked proof in Coq of the accept/fail decision + correspondence by vm_compute + exact residual oracle",
           "DESIGN.md 4 (C05)")
+    claim("C01",
+          "Exactness certificate, proved over Q for every bar, slice, load and displacement vector: the polynomial field determined element by element by the reported nodal displacements satisfies the Euler-Bernoulli equations (EA u_xx = -p, EI v_xxxx = q) for the user's linear loads at every x, takes the reported displacements and rotations at every listed position, is continuous in u, v, v_x across slice nodes, and its section forces jump by exactly the concentrated load at every node in equilibrium; bars sharing an equation number report identical movements; |u_i - u*_i| <= eps * sum_j |K^-1_ij| whenever every equation is met within eps, and the exact solution is unique (kernel theorems also over R).",
+          SOLVER + "lump_gen / recover_gen / stiff_gen regenerated from the Go source each run; Model/Recover.v tied by stage F (every displacement value of every bar). An independent exact rational frame solver (tools/exact_frame.py) is the search oracle: reported displacements are compared with it at every listed position within the proved bound. Partial: the hypothesis node_equilibrium (interior rows of K u = f in bar axes) is discharged per run by the exact-residual check, not yet derived in Coq from the assembled system; irrational bar lengths are covered by the R kernels only.",
+          "machine-checked proof in Coq (field identities over translated kernels, conditioning bound) + correspondence by vm_compute + exact rational frame oracle",
+          "DESIGN.md 4 (C01)")
+    claim("C02",
+          "Theorems over Q (kernels also over R) for every bar, any number of slices, any displacement vector: what the recovery lists at the ends of a finite element are stiffness x displacements minus the nodal loads it brought; across a node in equilibrium the listed axial force, shear and moment jump by exactly the concentrated load (-Fx, +Fy, -Mz); along an element N_x = -p, V_x = q, M_x = V - m; hence all listed values equal the section forces obtained by marching from the bar's first values across every element and node (chain_statics); top fibre = M / S; local = rotated global; merging drops only repeats.",
+          SOLVER + "recover_gen, lump_gen regenerated each run; loops tied by stage F (every listed value, merge decisions accepted either way inside the float band). Oracle: exact statics integrated from the bar's own first values over the user's loads. Partial: node_equilibrium as for C01.",
+          "machine-checked proof in Coq (induction along the node chain over translated kernels) + correspondence by vm_compute + exact statics oracle",
+          "DESIGN.md 4 (C02)")
+    claim("C03",
+          "Theorems over Q: every bar with all interior nodes in equilibrium has its two end torsors (exactly what solve adds to the reactions of its end nodes) in balance with everything applied to it - axial force, transverse force and moment about the bar start, any number of slices; the reaction of a node is the sum over the bars that start or end there of end torsor minus the load applied on that end, independent of bar order; a reaction is listed exactly for the externally constrained nodes.",
+          SOLVER + "end torsor formulas regenerated each run; summation tied by stage F (every reaction component). Oracle: exact resultant of the user's loads (own weight included) plus the listed reactions must vanish within (equations x error); keys = constrained nodes; no component along a free direction. Partial: the structure-level sum over free joints (rows of K u = f) is checked per run, not derived in Coq.",
+          "machine-checked proof in Coq (conserved quantities of the marching statics) + correspondence by vm_compute + exact balance oracle",
+          "DESIGN.md 4 (C03)")
